@@ -26,7 +26,7 @@ EXHAUSTIVE = {"quick": False, "thorough": False}
 def plan(tier, seed):
     if tier == "quick":
         return [{"planted": 1500, "freeform": 800, "corpus": 30}]
-    return [{"planted": 6000, "freeform": 3000, "corpus": 200, "salt": i} for i in range(32)]
+    return [{"planted": 24000, "freeform": 10000, "corpus": 500, "salt": i} for i in range(32)]
 
 
 def key_of(e):
